@@ -59,6 +59,8 @@ def run_history(ctx, case):
     mid = 0
     bodies = {}
     killer = None           # armed by a "kill" op for the duration of the NEXT op
+    w.pin_probe = []        # findings of the direct store probe (cases with "pinprobe")
+    probe_state = {}
     try:
         for k, op in enumerate(case["ops"]):
             if killer is not None and killer.age >= 1:
@@ -93,6 +95,10 @@ def run_history(ctx, case):
                 w.accounts[op[1]].restart()
             elif op[0] == "notify":         # server -> account op[1]: "op[2] has a new identity" (encrypt notification)
                 w.notify_identity(op[1], op[2])
+            elif op[0] == "hidekeys":       # from now on the key directory answers get-keys for account op[1] without an
+                w.hidden_keys[w.accounts[op[1]].jid] = op[2]        # identity (shape op[2], see worldsim.World.hidden_keys)
+            elif op[0] == "showkeys":       # ... and from now on with what the account published again
+                w.hidden_keys.pop(w.accounts[op[1]].jid, None)
             elif op[0] == "corrupt":        # the server damages the oldest pending message delivery (one MAC bit), if any
                 mp = w.messages_pending()
                 if mp:
@@ -119,6 +125,8 @@ def run_history(ctx, case):
                 sched_out.append([])        # burst: leave the stanzas queued until the next op
             else:
                 sched_out.append(w.drain(lambda m: rng.randrange(m) if case.get("reorder") else 0))
+            if case.get("pinprobe"):
+                pin_probe(w, case, k, op, probe_state)
         if w.pending:
             sched_out.append(w.drain())
     finally:
@@ -126,6 +134,40 @@ def run_history(ctx, case):
             killer.disarm()
         w.close()
     return w, w.observer, bodies, sched_out
+
+
+def pin_probe(w, case, k, op, st):
+    """The property read back through the account's OWN store object (the one its manager decides with), after every
+    op from case["pinprobe"] = [account, contact, first op index] on: with auto-trust off the key remembered for the
+    contact at that point is still the trusted one (isTrustedIdentity(old) is True) and the contact's current
+    identity, when it is another one, is not (isTrustedIdentity(new) is False)."""
+    ai, ci, k0 = case["pinprobe"]
+    if k < k0 or not w.pending == []:
+        return
+    a, c = w.accounts[ai], w.accounts[ci]
+    if a.stack is None or c.stack is None:
+        return
+    from axolotl.identitykey import IdentityKey
+    from axolotl.ecc.djbec import DjbECPublicKey
+    if "old" not in st:
+        st["old"] = a.identities_table().get(c.phone)
+        if st["old"] is None:
+            w.pin_probe.append(("pin_probe", "account %d stores no key for %d after op #%d %r: the history does not "
+                                "pin the contact" % (ai, ci, k, op)))
+        return
+    if st["old"] is None or case["autotrust"][ai]:
+        return
+    store = a.manager._store
+    old, new = st["old"], c.own_identity()
+    if not store.isTrustedIdentity(c.phone, IdentityKey(DjbECPublicKey(old[1:]))):
+        w.pin_probe.append(("pin_probe", "account %d, auto-trust off: after op #%d %r the key remembered for %d is no "
+                            "longer the trusted one (isTrustedIdentity(remembered key) is False)" % (ai, k, op, ci)))
+    if new != old and store.isTrustedIdentity(c.phone, IdentityKey(DjbECPublicKey(new[1:]))):
+        w.pin_probe.append(("pin_probe", "account %d, auto-trust off: after op #%d %r the store answers 'trusted' for "
+                            "the NEW identity of %d (remembered key %s)" %
+                            (ai, k, op, ci, "still stored" if a.identities_table().get(c.phone) == old else
+                             "gone from the identities table" if a.identities_table().get(c.phone) is None else
+                             "replaced")))
 
 
 # ---------------------------------------------------------------------------------------------------
@@ -145,14 +187,18 @@ def abstract_account(rec, idx, bodies):
     """-> (inputs sx list, expected outputs per input, ids_after per input, sess_after per input, problems)"""
     ins, outs, ids, sess, problems, descr = [], [], [], [], [], []
     cur = None
+    noident = []
     for ev in rec.events[idx]:
         if ev["dir"] == "in":
             tag = ev["tag"]
             x = None
+            noident = []
             if tag == "send":
                 x = [0, ev["peer"], ev["id"]]
             elif tag == "keys":
-                x = [1, ev["iq"], [[u["jid"], u["ident"], u.get("sid", 0)] for u in ev["users"]]]
+                # a <user> node without <identity> is, to getKeysFor, a jid missing from the answer (model: lookup = None)
+                x = [1, ev["iq"], [[u["jid"], u["ident"], u.get("sid", 0)] for u in ev["users"] if u["ident"]]]
+                noident = [u["jid"] for u in ev["users"] if not u["ident"]]
             elif tag == "message":
                 if len(ev["encs"]) != 1 or ev["encs"][0].get("unknown") or ev["encs"][0]["kind"] == "skmsg":
                     problems.append("unexpected message shape %r" % (ev["encs"],))
@@ -208,7 +254,9 @@ def abstract_account(rec, idx, bodies):
             elif tag == "receipt":
                 o = [4, ev["peer"], ev["id"], ev["count"]] if ev["rtype"] == "retry" else [3, ev["peer"], ev["id"]]
             elif tag == "err":
-                o = [5, ev["peer"]]
+                # the log line about a <user> node with missing parts is not an output of the model
+                o = [5, ev["peer"]] if not (ev.get("error") == "MissingParametersException" and ev["peer"] in noident) \
+                    else None
             elif tag == "deliver":
                 body = ev["obj"].getBody() if hasattr(ev["obj"], "getBody") else None
                 pay = 0
@@ -334,6 +382,8 @@ def oracle(case, rec, bodies):
             if ev["tag"] == "keys" and not killed:
                 for u in ev["users"]:
                     old = pinned.get(u["jid"])
+                    if not u["ident"]:
+                        continue        # answer without an identity: nothing is presented, nothing to refuse
                     if old is not None and old != u["ident"]:
                         if not auto:
                             errs = [o for o in outs if o["tag"] == "err" and o["peer"] == u["jid"]]
@@ -458,8 +508,55 @@ def fault_cases():
     return cs
 
 
+def unpin_cases():
+    """Directed, always run: contact 1 is pinned at account 0; 1 reinstalls (new identity) and - the window before the
+    new installation's keys are visible - the key directory answers a fetch of 0 for 1 WITHOUT an identity: jid left
+    out of <list/> ("empty"), <user jid/> without children ("bare"), <user> with everything but <identity>
+    ("stripped").  The fetch is triggered in each way a fetch for a pinned contact can be: identity-change
+    notification; retry receipt of the new installation; application send while 0 holds the pin but no session.
+    Then the new keys become visible, optionally 0 restarts, and the new identity comes by first message and by bundle.
+    Only answer shapes the unchanged code digests are used: "empty" makes the send layer's callback raise
+    NotImplementedError (no error, no success jid), so it is used with the notification only; after a send-layer fetch
+    answered without identity the contact is on that layer's skipEncJids (messages to it leave UNENCRYPTED until the
+    process ends - outside this property's text), so 0 sends again only after a restart in those histories."""
+    cs = []
+    for auto in (False, True):
+        for trig in ("notify", "retry", "first-send"):
+            for shape in (("empty", "bare", "stripped") if trig == "notify" else ("bare", "stripped")):
+                for follow in ("pkmsg", "send"):
+                    for restart in (False, True):
+                        own_send_ok = trig == "notify" or restart
+                        if follow == "send" and not own_send_ok:
+                            continue
+                        if shape == "stripped" and trig != "notify" and not (follow == "pkmsg" and restart):
+                            continue
+                        hide, show = ["hidekeys", 1, shape], ["showkeys", 1]
+                        if trig == "notify":
+                            ops = [["send", 0, 1], ["send", 1, 0], hide, ["reinstall", 1], ["notify", 0, 1], show]
+                            exp, mid, k0 = {"1": True, "2": True}, 2, 1
+                        elif trig == "retry":
+                            ops = [["send", 0, 1], ["send", 1, 0], hide, ["reinstall", 1], ["send", 0, 1], show]
+                            exp, mid, k0 = {"1": True, "2": True, "3": False}, 3, 1
+                        else:
+                            ops = [["send", 1, 0, "x", "hold"], ["reinstall", 0], hide, ["reinstall", 1],
+                                   ["send", 0, 1, "x"], show]
+                            exp, mid, k0 = {"1": False, "2": False}, 2, 1
+                        if restart:
+                            ops.append(["restart", 0])
+                        tail = [["send", 1, 0, "x"]] + ([["send", 0, 1, "x"]] if own_send_ok else []) \
+                            if follow == "pkmsg" else [["send", 0, 1, "x"], ["send", 1, 0, "x"]]
+                        for t in tail:
+                            mid += 1
+                            exp[str(mid)] = auto
+                        cs.append({"name": "unpin-%s-%s-%s-%s-%s" % (trig, shape, follow, "restart" if restart else
+                                                                   "norestart", auto),
+                                   "n": 2, "autotrust": [auto, False], "ops": ops + tail, "expect": exp,
+                                   "pinprobe": [0, 1, k0], "family": "unpin"})
+    return cs
+
+
 def scripted_cases():
-    cs = fault_cases() + kill_cases()
+    cs = fault_cases() + kill_cases() + unpin_cases()
     for auto in (False, True):
         # --- the pin must be durable whichever path saved it (seeded defect C17-2: saveIdentity without commit) ---
         # (a) the identity is first learnt from the bundle fetched after an identity-change notification (nothing is
@@ -648,9 +745,20 @@ def check_case(ctx, model, case, stats):
     w, rec, bodies, sched = run_history(ctx, case)
     full = dict(case, schedule=sched)
     found = []
-    orc = oracle(case, rec, bodies) + expect_resumed(case, rec, bodies)
+    orc = list(getattr(w, "pin_probe", [])) + oracle(case, rec, bodies) + expect_resumed(case, rec, bodies)
     for name, detail in orc:
         found.append(("oracle", name, detail))
+    if case.get("family") == "unpin":
+        # the directed family must really contain its shape: account 0 got a key answer for 1 without an identity
+        hits = [e for e in rec.events[0] if e["dir"] == "in" and e["tag"] == "keys" and
+                any(not u["ident"] and u["jid"] == 1 for u in e["users"])] if "bare" in json.dumps(case["ops"]) or \
+            "stripped" in json.dumps(case["ops"]) else \
+            [e for e in rec.events[0] if e["dir"] == "in" and e["tag"] == "keys" and not e["users"]]
+        stats["unpin_histories"] = stats.get("unpin_histories", 0) + 1
+        stats["unpin_answers_without_identity"] = stats.get("unpin_answers_without_identity", 0) + len(hits)
+        if not hits:
+            found.append(("correspondence", "unpin-shape-not-reached", "history %s: account 0 never received a key "
+                          "answer without identity for its pinned contact" % case.get("name")))
     for idx in range(case["n"]):
         ins, outs, ids, sess, problems, descr = abstract_account(rec, idx, bodies)
         for p in problems:
@@ -712,6 +820,9 @@ def run(ctx):
     nrand = 150 if ctx.tier == "quick" else 2000
     for _ in range(nrand):
         cases.append(random_case(ctx.rng, ctx.tier))
+    import os
+    if os.environ.get("C17_ONLY"):      # development aid: only the histories whose name starts with the given prefix
+        cases = [c for c in cases if c.get("name", "").startswith(os.environ["C17_ONLY"])]
     stats = {"inputs": 0, "kinds": {}, "outs": {}}
     distinct = set()
     mism = 0
@@ -762,6 +873,22 @@ def run(ctx):
     ctx.coverage["model_output_kinds"] = dict((["getkeys", "enc-message", "plain-message", "receipt", "retry",
                                                 "per-jid-error", "deliver", "receipt-to-app", "notification-ack"][k], v)
                                               for k, v in sorted(stats["outs"].items()))
+    ctx.coverage["unpin_family"] = {
+        "histories": stats.get("unpin_histories", 0),
+        "key_answers_without_identity_for_a_pinned_contact": stats.get("unpin_answers_without_identity", 0),
+        "what": "pinned contact reinstalls; key fetch of the pinning account (identity-change notification / retry "
+                "receipt / send while pinned without session) answered with <list/> without the jid, <user jid/> "
+                "bare, <user> without <identity>; keys visible again; optional restart; the new identity comes by "
+                "first message and by bundle; auto-trust off and on",
+        "checked_by": "correspondence with the model (its keys_result 'jid missing from the answer' branch: state "
+                      "unchanged but skipEncJids; a <user> node without identity is abstracted to a missing jid, its "
+                      "log-only MissingParametersException report is not a model output), the history oracle, the "
+                      "delivery expectations, and a direct probe of the account's own store after every op "
+                      "(isTrustedIdentity(remembered) True, isTrustedIdentity(new) False with auto-trust off)",
+        "not_covered": "fetch triggered by an incoming msg-type stanza while pinned without session; the <list/> "
+                       "answer on the send-layer paths (the unchanged callback raises NotImplementedError); the "
+                       "account's own unencrypted sends after a send-layer fetch answered without identity "
+                       "(skipEncJids) - the account sends again only after a restart in those histories"}
     ctx.coverage["exhaustive"] = False
     return ctx.finish(
         rule="case = history over 2-3 accounts (send a->b, reinstall a, restart a = end of the process with the store "
